@@ -325,6 +325,10 @@ def run_plan(plan, trace=False):
                          f"call #{ci} (tag {tag}) raised {e!r} at {site.filename.split('/')[-1]}:{site.lineno}; dest keys {sorted(model_dest)} source keys {sorted(all_items)}")
                     break
             res.evals += 1
+            if executed and not sp.log:
+                raise HarnessError("SEAM-LOST C18: commands ran but no _molli_run spawn went through SimSpawn")
+            if expect_exec and not exf.executors and raised is None:
+                raise HarnessError("SEAM-LOST C18: jobmap did not use the ThreadPoolExecutor seam")
             interrupted = raised is not None
             if call["interrupt"] and tq.fired:
                 res.stats["probe:interrupt_" + {"Preparing": "prepare", "Submitting": "submit", "Waiting": "wait", "Finalizing": "finalise"}[call["interrupt"]["phase"]]] += 1
